@@ -21,7 +21,7 @@ NSCHED = {'quick': 320, 'thorough': 3840}
 KEYS = ['a', 'b', 'k1', 7, 'p-q']
 VALS = [1, 'v', (2, 3), None, 2.5]
 SCEN = ['ww', 'ww', 'wr-other', 'wr-other', 'wr-list', 'wr-list', 'wr-list', 'over-r', 'over-list', 'del-r', 'del-list', 'www', 'f-wr', 'f-wo', 'f-wo', 'f-wr',
-        'q-ww', 'q-over-r', 'q-wr-list', 'q-upd-r']
+        'q-ww', 'q-over-r', 'q-wr-list', 'q-upd-r', 'q-hold', 'wr-list-fine', 'wr-list-fine']
 
 
 def gen(tier, idx):
@@ -40,7 +40,7 @@ def gen(tier, idx):
     if sc == 'ww': procs = [('writer', ['setitem', absent[0], nv()]), ('writer', ['setitem', absent[1], nv()])]
     elif sc == 'www': procs = [('writer', ['setitem', absent[0], nv()]), ('writer', ['setitem', absent[1], nv()]), ('reader', listing())]
     elif sc == 'wr-other': procs = [('writer', ['setitem', absent[0], nv()]), ('reader', [r.choice(['getitem', 'contains', 'get']), present[0]])]
-    elif sc == 'wr-list': procs = [('writer', ['setitem', absent[0], nv()]), ('reader', listing())]
+    elif sc in ('wr-list', 'wr-list-fine'): procs = [('writer', ['setitem', absent[0], nv()]), ('reader', listing())]
     elif sc == 'over-r': k = present[0]; procs = [('writer', ['setitem', k, nv(dict(prior)[k])]), ('reader', [r.choice(['getitem', 'contains', 'get']), k])]
     elif sc == 'over-list': k = present[0]; procs = [('writer', ['setitem', k, nv(dict(prior)[k])]), ('reader', listing())]
     elif sc == 'del-r': k = present[0]; procs = [('writer', [r.choice(['delitem', 'pop']), k]), ('reader', [r.choice(['getitem', 'contains', 'get']), k])]
@@ -51,10 +51,15 @@ def gen(tier, idx):
     elif sc == 'q-over-r': k = present[0]; procs = [('writer', ['setitem', k, nv(dict(prior)[k])]), ('reader', [r.choice(['getitem', 'contains', 'get', 'asdict']), k])]
     elif sc == 'q-wr-list': procs = [('writer', ['setitem', absent[0], nv()]), ('reader', [r.choice(['keys', 'asdict', 'items', 'len'])])]
     elif sc == 'q-upd-r': k = present[0]; procs = [('writer', ['update', [(k, nv(dict(prior)[k])), (absent[0], nv())]]), ('reader', [r.choice(['getitem', 'get', 'asdict']), k])]
+    elif sc == 'q-hold':
+        # the key has a history of assignments (several rows); a reader tests membership and then idles with its handle open
+        k = present[0]; prior = prior + [(k, nv(dict(prior)[k]))]
+        procs = [('writer', ['setitem', absent[0], nv()]), ('reader', ['contains-hold', k])]
     if sc == 'q-over-r' and procs[1][1][0] == 'asdict': procs[1] = ('reader', ['asdict'])
     if sc == 'q-upd-r' and procs[1][1][0] == 'asdict': procs[1] = ('reader', ['asdict'])
     if sc == 'f-wr' and procs[1][1][0] in ('asdict', 'len'): procs[1] = ('reader', [procs[1][1][0]])
     policy = r.choice(['random', 'random', 'random', 'first', 'second', 'alternate', 'after-rename', 'after-rename'])
+    if sc == 'q-hold': policy = 'hold'
     if sc in ('f-wr', 'wr-other', 'over-r', 'del-r', 'q-over-r', 'q-upd-r'):
         # the reader takes one step: put it at every position of the writer's run in turn (exhaustive for these scenarios)
         policy = 'pos:%d' % ((idx // len(SCEN)) % 16)
@@ -62,6 +67,12 @@ def gen(tier, idx):
     # finer interleavings than the model replays - those are monitored only
     fine = kind == 'dir' and (idx // len(SCEN)) % 8 == 7 and any(role == 'reader' for role, _ in procs)
     if fine and policy.startswith('pos:'): policy = 'random'
+    if sc == 'wr-list-fine':
+        # readers gated at system-call level; the writer is advanced j steps after the reader's k-th call, then the reader finishes:
+        # enumerates where the writer's staging directory / rename falls between the reader's own directory scans and stats
+        fine = True
+        n = (idx // len(SCEN)) * 2 + (1 if idx % len(SCEN) == len(SCEN) - 1 else 0)
+        policy = 'wpos:%d:%d' % (1 + n % 10, [2, 3, 6, 9][(n // 10) % 4])
     return dict(cfg=cfg, scen=sc, prior=prior, procs=procs, policy=policy, seed=r.randrange(10 ** 9), fine=fine)
 
 
@@ -129,6 +140,17 @@ def run_schedule(case):
                 kpos = int(case['policy'][4:]); done0 = len([e for e in sched if e[0] == 0])
                 others = [j for j in live if j != 0]
                 i = 0 if (0 in live and done0 < kpos) or not others else others[0]
+            elif case['policy'].startswith('wpos:'):
+                kpos, jw = map(int, case['policy'][5:].split(':'))
+                done1 = len([e for e in sched if e[0] == 1]); done0 = len([e for e in sched if e[0] == 0])
+                if 1 in live and done1 < kpos: i = 1
+                elif 0 in live and done0 < jw: i = 0
+                elif 1 in live: i = 1
+                else: i = live[0]
+            elif case['policy'] == 'hold':
+                # the reader runs until it idles; then the writer does all its work; then the reader goes on
+                parked = kids[1].pending and kids[1].pending['g'][0] == 'idle'
+                i = 1 if (1 in live and not parked) or 0 not in live else 0
             elif case['policy'] == 'first': i = live[0]
             elif case['policy'] == 'second': i = live[-1]
             else: i = [j for j in live if j != last][0] if len(live) > 1 and last in live else live[0]
